@@ -208,7 +208,16 @@ def router_worker(analysis: Analysis, spec) -> dict:
             else:
                 rows.append({"ok": none and (is_pres or not sf["sleeping"]), "what": "drops the message", "why": "presentation echo / not a message" if none else "returns something else", "witness": describe_path(out)})
     held = any(r["what"] == "holds the message" for r in rows)
-    return {"ctx": ctx.name, "rows": rows, "held": held}
+    # a stream (firmware) message is never withheld: run the router on a message whose type is `stream`
+    it2 = analysis.new_interp(ctx)
+    st2, gw2 = analysis.gateway_state(it2)
+    st2.mem[(msg.key(), "a", "type")] = EnumMemV("MessageType", ctx.version, ("stream",))
+    stream_rows = []
+    for out in analysis.run_root(it2, "__init__:Gateway._route_message", [msg], gw2, st2):
+        kind, s, v = out
+        passed = kind == "val" and isinstance(v, V) and v.key() == msg.key() and not any(e.kind == "append" for e in s.events)
+        stream_rows.append({"ok": passed, "witness": describe_path(out)})
+    return {"ctx": ctx.name, "rows": rows, "held": held, "stream_rows": stream_rows}
 
 
 def set_child_value_worker(analysis: Analysis, spec) -> dict:
@@ -368,6 +377,8 @@ def run(analysis: Analysis, tier: str) -> RuleResult:
             res.add("C07-R2", "__init__:Gateway._route_message / traffic for a sleeping node is held", False, "mysensors/__init__.py", "no path of the router diverts a message into the node's queue", context=s["ctx"])
         for r in s["rows"]:
             res.add("C07-R2", f"__init__:Gateway._route_message / {r['what']}", r["ok"], "mysensors/__init__.py", r.get("why", ""), r["witness"] if not r["ok"] else None, context=s["ctx"])
+        bad = [r for r in s["stream_rows"] if not r["ok"]]
+        res.add("C07-R2", "__init__:Gateway._route_message / a stream (firmware) message always passes, also for a sleeping node", bool(s["stream_rows"]) and not bad, "mysensors/__init__.py", f"{len(s['stream_rows'])} path(s) return the message" if not bad else "a firmware response for a sleeping node is withheld or dropped: the node's config / block requests go unanswered until its next wake-up", bad[0]["witness"] if bad else None, context=s["ctx"])
     # syntactic sink enumeration: every site is either classified by its own shape (pump, dispatch,
     # raw API) or must have been reached and classified on the analysed paths
     sites = sink_sites(analysis)
